@@ -220,13 +220,29 @@ def run_stateful(argv, lines, nsetup=3):
             baseline = got[nsetup - 1]
         if len(got) >= len(pending):
             out.extend(got[:len(pending)]); break
-        out.extend(got); out.append(f'abort {rc}')
+        out.extend(got)
+        verdict = f'abort {rc}'
+        if rc == 3 and argv[0] == C.HARNESS_BIN:
+            # the harness's watchdog (20 s of wall clock without an answer) ended the process.  A handler that really spins or blocks does
+            # so again; a machine that stalled does not: the case is run once more, alone in a fresh process, before it is called an abort
+            again = _run_once(argv, setup + [pending[len(got)]])
+            if len(again) == len(setup) + 1: verdict = again[-1]
+        out.append(verdict)
         pending = pending[len(got) + 1:]
         replay = True
         guard += 1
         if guard > 100:
             out.extend(['abort too-many'] * len(pending)); break
     return out, baseline
+
+def _run_once(argv, lines):
+    import subprocess
+    try:
+        p = subprocess.run(argv, input=('\n'.join(lines) + '\n').encode(), stdout=subprocess.PIPE, stderr=subprocess.DEVNULL, timeout=120)
+    except subprocess.TimeoutExpired:
+        return []
+    got = p.stdout.decode('utf-8', 'replace').split('\n')
+    return [g[1:] for g in got if g.startswith('\x01')]
 
 def run_impl(lines, shards=1):
     return run_stateful([C.HARNESS_BIN, 'serve'], lines)[0]
